@@ -61,17 +61,21 @@ async fn recognize(stream: &mut TcpStream) -> Result<Proxy, anyhow::Error> {
         Ok(Proxy::Socks5)
     } else {
         let mut buf = [0; 1024];
-        let len = stream.peek(&mut buf).await?;
-        let mut headers = [];
-        let mut req = httparse::Request::new(&mut headers);
-        match (req.parse(&buf[..len]), req.path, req.method) {
-            (_, Some(path), Some(method)) => Ok(recognize_http(method, path)?),
-            (_, None, Some(_)) => {
-                stream.write_all(b"HTTP/1.1 414 URI Too Long\r\n\r\n").await?;
-                stream.shutdown().await?;
-                Ok(Proxy::Error("URI too long".to_owned()))
+        loop {
+            let len = stream.peek(&mut buf).await?;
+            let mut headers = [];
+            let mut req = httparse::Request::new(&mut headers);
+            match (req.parse(&buf[..len]), req.path, req.method) {
+                (_, Some(path), Some(method)) => return recognize_http(method, path),
+                // the request line is still arriving (it may be split across tcp segments): look again
+                (Ok(httparse::Status::Partial), _, _) if len < buf.len() => tokio::time::sleep(Duration::from_millis(5)).await,
+                (_, None, Some(_)) => {
+                    stream.write_all(b"HTTP/1.1 414 URI Too Long\r\n\r\n").await?;
+                    stream.shutdown().await?;
+                    return Ok(Proxy::Error("URI too long".to_owned()));
+                }
+                _ => return Ok(Proxy::Unknown),
             }
-            _ => Ok(Proxy::Unknown),
         }
     }
 }
